@@ -350,7 +350,7 @@ func c19GraphLines(g syntax.CallGraphNode) (lines []string, odd string, err erro
 
 // c19GraphLe: every node of `after` is a node of `before` with the same callable, kind, resolved
 // outputs and retained references, and every resolved input of it is an input of the original
-// node with the same resolved value (the conclusion of remove_unused_calls_loop_graph).
+// node with the same resolved value (the conclusion of remove_unused_calls_loop_graph_partial).
 func c19GraphLe(after, before []*c19GNode) string {
 	idx := map[string]*c19GNode{}
 	for _, n := range before {
@@ -518,6 +518,14 @@ func c19GraphTieCase(c *Ctx, cs *c19Case, plain *syntax.Ast, base *c19Compiled) 
 	if base.Graph == nil {
 		return
 	}
+	// the encoding itself: the driver's parser and printer are inverse on it
+	if enc := c19Encode(plain); c.Drv != nil {
+		if rep := c.Drv.Ask("C19.roundtrip", enc); rep != enc {
+			r.violate(Violation{Kind: "correspondence", Key: "C19:encoding-roundtrip",
+				What: "the driver's parser/printer do not round-trip the encoded program", Input: c19Replay{Program: cs.Src, Note: "found in " + cs.Name},
+				Impl: enc, Model: rep, Broken: "correspondence C19 (program encoding)"})
+		}
+	}
 	verdict, real, model := c19GraphTie(c, plain, base.Ast, base.Graph)
 	switch {
 	case verdict == "equal-with-disabled":
@@ -527,7 +535,7 @@ func c19GraphTieCase(c *Ctx, cs *c19Case, plain *syntax.Ast, base *c19Compiled) 
 		r.hist("graph-tie:equal")
 		r.count("graph\x00"+cs.Src, len(real) > 1)
 		c19GraphSeen++
-		if c.Thorough || c19GraphSeen%3 == 1 {
+		if c19GraphSeen%3 == 1 {
 			// deepGraphD (the model with disabled modifiers) must be the embedding of deepGraph here, and equal the real graph
 			if v, rl, ml := c19GraphTieD(c, plain, base.Ast, base.Graph, true); v != "equal-with-disabled" && !strings.HasPrefix(v, "skip:") {
 				r.violate(Violation{Kind: "correspondence", Key: "C19:deepgraphD-model-differs",
@@ -538,8 +546,8 @@ func c19GraphTieCase(c *Ctx, cs *c19Case, plain *syntax.Ast, base *c19Compiled) 
 				r.hist("graph-tie:deepGraphD=embedding-of-deepGraph")
 			}
 		}
-		// thorough tier: the graph tie on every program, the theorem instances and real edits on every third
-		if !c.Thorough || c19GraphSeen%3 == 0 {
+		// thorough tier: the graph tie on every program, the theorem instances and real edits on every fifth
+		if !c.Thorough || c19GraphSeen%5 == 0 {
 			c19GraphTheorems(c, cs, plain, base)
 		}
 	case strings.HasPrefix(verdict, "skip:"):
@@ -623,9 +631,6 @@ func c19GraphTheorems(c *Ctx, cs *c19Case, plain *syntax.Ast, base *c19Compiled)
 		return cs
 	}
 	n := 1
-	if c.Thorough {
-		n = 2
-	}
 	var rems []cand
 	for _, cd := range ins {
 		rems = append(rems, cand{"removeInput", cd.callable, cd.param})
@@ -676,7 +681,7 @@ func c19GraphTheorems(c *Ctx, cs *c19Case, plain *syntax.Ast, base *c19Compiled)
 			r.violate(Violation{Kind: "correspondence", Key: "C19:graph-theorem-instance",
 				What:   "an instance of the call-graph theorem for " + cd.op + " evaluates to false in the model (or could not be evaluated): " + rep,
 				Input:  c19Replay{Program: cs.Src, Edit: e, Note: "found in " + cs.Name},
-				Broken: "Props.C19.rename_input_graph / rename_output_graph / rename_callable_graph"})
+				Broken: "Props.C19.rename_input_graph / rename_output_graph_partial / rename_callable_graph_partial"})
 			continue
 		}
 		r.count("graph-thm\x00"+cs.Src+"\x00"+e.String(), f["hyp"] == "true")
@@ -696,7 +701,7 @@ func c19GraphTheorems(c *Ctx, cs *c19Case, plain *syntax.Ast, base *c19Compiled)
 			continue
 		}
 		if cd.op == "removeCalls" {
-			// the conclusion of remove_unused_calls_loop_graph on the REAL graphs before / after the real edit
+			// the conclusion of remove_unused_calls_loop_graph_partial on the REAL graphs before / after the real edit
 			bn, odd1, err1 := c19GraphNodes(base.Graph)
 			an, odd2, err2 := c19GraphNodes(after.Graph)
 			if err1 != nil || err2 != nil || odd1 != "" || odd2 != "" {
@@ -704,7 +709,7 @@ func c19GraphTheorems(c *Ctx, cs *c19Case, plain *syntax.Ast, base *c19Compiled)
 			}
 			if d := c19GraphLe(an, bn); d != "" {
 				r.violate(Violation{Kind: "property", Key: "C19:graph-theorem:remove-unused-calls-changed-a-remaining-node",
-					What:   "after the real `remove unused calls` edit a remaining node of the resolved call graph differs from the node before (StructOK holds, so remove_unused_calls_loop_graph applies): " + d,
+					What:   "after the real `remove unused calls` edit a remaining node of the resolved call graph differs from the node before (StructOK holds, so remove_unused_calls_loop_graph_partial applies): " + d,
 					Input:  c19Replay{Program: cs.Src, Edit: e, Note: "found in " + cs.Name},
 					Impl:   out,
 					Broken: "Props.C19.remove_unused_calls_loop_graph on the real code"})
@@ -727,11 +732,11 @@ func c19GraphTheorems(c *Ctx, cs *c19Case, plain *syntax.Ast, base *c19Compiled)
 		if strings.Join(real, "\n") != strings.Join(pred, "\n") {
 			r.hist("graph-theorem:prediction-DIFFERENT")
 			r.violate(Violation{Kind: "property", Key: "C19:graph-theorem:real-graph-differs-from-prediction",
-				What:   "after the real edit " + e.String() + " the real call graph is not the graph before with the parameter renamed (the conclusion of rename_input_graph / rename_output_graph, whose hypothesis holds for this program)",
+				What:   "after the real edit " + e.String() + " the real call graph is not the graph before with the parameter renamed (the conclusion of rename_input_graph_partial / rename_output_graph_partial, whose hypothesis holds for this program)",
 				Input:  c19Replay{Program: cs.Src, Edit: e, Note: "found in " + cs.Name},
 				Impl:   strings.Join(real, "\n"),
 				Model:  strings.Join(pred, "\n"),
-				Broken: "Props.C19.rename_input_graph / rename_output_graph on the real code"})
+				Broken: "Props.C19.rename_input_graph / rename_output_graph_partial on the real code"})
 		} else {
 			r.hist("graph-theorem:" + cd.op + ":prediction-equals-real-graph")
 		}
